@@ -179,10 +179,14 @@ Definition pose_J_v0 (l : mat3 T) (ori : vec3 T) : mat T :=
   block6 (mmul3 N l (sR (smart_init N (v0 ori) (v1 ori) (v2 ori)))) (pose_J_angular_v0 l ori).
 
 (* ---------------- LeastSquares::computeEstimateCovariance ----------------
-   Ac_.transpose() * inverseJtJ_ * Ac_ * dataVariance ; [inv] = inverseJtJ_ is what the last estimate left there
-   (LDLT solve against the identity): an argument with the contract inv * (J^T J) = I. *)
+   repaired code (870e444):  Ac_ * inverseJtJ_ * Ac_.transpose() * dataVariance ;  [inv] = inverseJtJ_ is what the last
+   estimate left there (LDLT solve against the identity): an argument with the contract inv * (J^T J) = I.
+   [ls_covariance_old] is the code before the repair, Ac_.transpose() * inverseJtJ_ * Ac_ * dataVariance (kept for the
+   _refuted theorem: the two agree for symmetric Ac only). *)
 Definition ls_JtJ (m n : nat) (j : mat T) : mat T := fun a b => nsum m (fun r => j r a * j r b).
 Definition ls_covariance (n : nat) (ac inv : mat T) (variance : T) : mat T :=
+  gscale (gmul n (gmul n ac inv) (gtrans ac)) variance.
+Definition ls_covariance_old (n : nat) (ac inv : mat T) (variance : T) : mat T :=
   gscale (gmul n (gmul n (gtrans ac) inv) ac) variance.
 (* contract residual of the oracle argument: max |inv * JtJ - I| *)
 Definition ls_inv_residual (n : nat) (jtj inv : mat T) : T :=
